@@ -45,8 +45,8 @@ CLAIMED = {
    text="For symbolic single- and two-record queries (L=4/5) the mutation list of the real sam variants path equals that of the variants path on the toPairAlign FASTA form (real wrap -> real FASTA reader -> real GetVariantsPair), and for insertion-free queries on the toMultiAlign --pad row; the default (non --pad) row is a listed known finding when the query leaves reference ends uncovered.",
    note="One CDS 1..3 + intergenic rest as annotation; reference from file."),
  "C12": dict(
-   text="Goroutine schedules, select choices, arrival orders and map iteration orders are symbolic inputs: every command function runs end to end on the engine's cooperative scheduler under every schedule with <=1 (thorough 2) deviations from the default; re-ordering stages under every arrival permutation (n<=4/5); map-ranging code under every iteration order. Output bytes must equal the default-order output.",
-   note="No memory model: data races and preemption between channel operations are NOT covered; counterexamples that fix a schedule are confirmed by deterministic re-execution in the interpreter, not natively."),
+   text="Goroutine schedules, select choices, arrival orders and map iteration orders are symbolic inputs: every command function runs end to end on the engine's cooperative scheduler under every schedule with <=1 (thorough 2) deviations from the default, for --threads 0..3 and 1..3 processors; re-ordering stages under every arrival permutation (n<=4/5); map-ranging code under every iteration order. Output bytes must equal the default-order output. On every explored path (success and error paths of all commands) a happens-before data-race analysis (vector clocks over go / channel / WaitGroup edges, every load, store, append, copy and map operation) must find no unordered conflicting accesses.",
+   note="Preemption between channel operations and GOMAXPROCS are not modelled; accesses inside sync, runtime, fmt, os, reflect, time, regexp, cobra/pflag are not tracked by the race analysis. Output counterexamples that fix a schedule are confirmed by deterministic re-execution in the interpreter; race counterexamples are confirmed on the native build with the Go race detector on the same input."),
  "C13": dict(
    text="snps --aggregate on symbolic sequences (N<=2/3) and the shared variants aggregate writer on every subset assignment of a 3/5-mutation pool to 3 sequences (with/without the reference record, --append-snps on/off): each distinct mutation once, frequency = count/n to 9 decimals, kept iff >= threshold for thresholds equal to occurring frequencies, ordered by position.",
    note="Float frequency compared as the same host expression; counts concrete per path."),
